@@ -120,6 +120,17 @@ def generate(rng, tier):
                     for k in range(0, 2 * ln):
                         cases.append({'kind': 'hist', 'fs0': fs0, 'ops': ops, 'fin': ['crash', k, None], 'tmp': 'own'})
                         cases.append({'kind': 'hist', 'fs0': fs0, 'ops': ops, 'fin': ['crash', k, 1], 'tmp': 'own'})
+    # a destination with a long run of old backups (the first free index is beyond 100)
+    for nb in ([101] if tier == 'quick' else [99, 100, 101, 130]):
+        fs0 = {'a.txt': 'cur'}
+        for k in range(1, nb + 1):
+            fs0['#a.txt.%d#' % k] = 'b%d' % k
+        cases.append({'kind': 'hist', 'fs0': fs0, 'ops': [['open', 'a.txt', 'w', 'new']], 'fin': ['write'], 'tmp': 'own'})
+    # the library's own writer functions, called as the pipeline calls them
+    for i in range(len(API_WRITERS) * (3 if tier == 'quick' else 12)):
+        wname = API_WRITERS[i % len(API_WRITERS)]
+        cases.append({'kind': 'api', 'writer': wname, 'preexisting': rng.random() < 0.6,
+                      'fin': [rng.choice(['write', 'close', 'write'])]})
     # CLI runs
     flagsets = [[], ['-scfix'], ['-scfix', '-collagen'], ['-ed'], ['-scfix', '-ed', '-collagen']]
     specsets = [[], [['1']], [['general']], [['general:1']], [['general:0']], [['missing-feature']], [['5']],
@@ -129,6 +140,93 @@ def generate(rng, tier):
         cases.append({'kind': 'cli', 'flags': flagsets[i % len(flagsets)] if i < len(flagsets) else rng.choice(flagsets),
                       'specs': rng.choice(specsets), 'preseed': rng.random() < 0.7})
     return cases
+
+
+API_WRITERS = ['write_pdb', 'write_gro', 'write_gmx_topology', 'write_atomtypes', 'write_nonbond_params']
+
+
+def _tiny_system():
+    import numpy as np
+    import vermouth
+    from vermouth.gmx.topology import Atomtype, NonbondParam
+    ff = vermouth.forcefield.ForceField(name='testff')
+    mol = vermouth.molecule.Molecule(force_field=ff, nrexcl=1)
+    for i in range(3):
+        mol.add_node(i, atomname='A%d' % i, resname='RES', resid=1, chain='A', atype='P1', charge_group=i + 1,
+                     charge=0.0, mass=72.0, position=np.array([0.1 * i, 0.2, 0.3]))
+    mol.add_edge(0, 1)
+    mol.add_interaction('bonds', (0, 1), ['1', '0.47', '1250'])
+    mol.meta['moltype'] = 'molecule_0'
+    system = vermouth.system.System(force_field=ff)
+    system.add_molecule(mol)
+    system.gmx_topology_params['atomtypes'].append(Atomtype(molecule=mol, node=0, sigma=0.0, epsilon=0.0, meta={}))
+    system.gmx_topology_params['nonbond_params'].append(NonbondParam(atoms=('P1', 'P1'), sigma=0.5, epsilon=2.0, meta={}))
+    return system
+
+
+def run_api(inp):
+    import vermouth.file_writer as fw
+    import vermouth.pdb
+    import vermouth.gmx
+    from vermouth.gmx import topology
+    os.makedirs(WORK, exist_ok=True)
+    root = tempfile.mkdtemp(prefix='c07api_', dir=WORK)
+    userdir = os.path.join(root, 'user')
+    tmpd = os.path.join(root, 'tmp')
+    os.makedirs(userdir)
+    os.makedirs(tmpd)
+    # the module-level `deferred_open` is bound to the process-wide singleton: reuse it, emptied
+    w = fw.DeferredFileWriter()
+    w.close()
+    old_tmpdir = w._tmpdir
+    w._tmpdir = tmpd
+    cwd = os.getcwd()
+    all_tmps = []
+    try:
+        os.chdir(userdir)
+        system = _tiny_system()
+        names = {'write_pdb': ['out.pdb'], 'write_gro': ['out.gro'],
+                 'write_gmx_topology': ['topol.top', 'molecule_0.itp', 'nb.itp', 'at.itp'],
+                 'write_atomtypes': ['at.itp'], 'write_nonbond_params': ['nb.itp']}[inp['writer']]
+        fs0 = {}
+        if inp['preexisting']:
+            for nme in names:
+                fs0[nme] = 'OLD ' + nme
+                with open(nme, 'w') as f:
+                    f.write(fs0[nme])
+        if inp['writer'] == 'write_pdb':
+            vermouth.pdb.write_pdb(system, 'out.pdb')
+        elif inp['writer'] == 'write_gro':
+            vermouth.gmx.write_gro(system, 'out.gro')
+        elif inp['writer'] == 'write_gmx_topology':
+            system.meta['header'] = ['hdr']
+            topology.write_gmx_topology(system, 'topol.top', itp_paths={'nonbond_params': 'nb.itp', 'atomtypes': 'at.itp'})
+        elif inp['writer'] == 'write_atomtypes':
+            topology.write_atomtypes(system, 'at.itp')
+        else:
+            topology.write_nonbond_params(system, 'nb.itp')
+        before = _snapshot(userdir)
+        dests = []
+        for tmp_path, final, mode in w.open_files:
+            all_tmps.append(tmp_path)
+            with open(tmp_path, 'rb') as f:
+                c = f.read().decode('latin-1')
+            dests.append([os.path.basename(str(final)), ('w' in mode or '+' in mode), c])
+        if inp['fin'][0] == 'write':
+            w.write()
+        else:
+            w.close()
+        after = _snapshot(userdir)
+        left = sum(1 for t in set(all_tmps) if os.path.exists(t))
+        return {'fs0': fs0, 'before': before, 'dests': dests, 'after': after, 'tmps_left': left}
+    finally:
+        os.chdir(cwd)
+        try:
+            w.close()
+        except Exception:  # pylint: disable=broad-except
+            pass
+        w._tmpdir = old_tmpdir
+        shutil.rmtree(root, ignore_errors=True)
 
 
 class Crash(Exception):
@@ -354,7 +452,11 @@ def run_cli(inp):
 
 
 def run_impl(inp):
-    return run_hist(inp) if inp['kind'] == 'hist' else run_cli(inp)
+    if inp['kind'] == 'hist':
+        return run_hist(inp)
+    if inp['kind'] == 'api':
+        return run_api(inp)
+    return run_cli(inp)
 
 
 def run_impl_all(inputs):
@@ -365,6 +467,8 @@ def run_impl_all(inputs):
         for i, c in enumerate(inputs):
             if c['kind'] == 'hist':
                 outs[i] = run_hist(c)
+            elif c['kind'] == 'api':
+                outs[i] = run_api(c)
         for i, f in futs.items():
             outs[i] = f.result()
     return outs
@@ -377,6 +481,12 @@ def emit(inp, out):
         return 'CCli %s %s %s %s %s %s' % (counts, specs, zlit(out['exit']), nlit(len(out['new_files'])),
                                            blit(out['intact']), blit(out['expected_present']))
     table = {n: i for i, n in enumerate(POOL)}
+    if inp['kind'] == 'api':
+        dests = listlit(out['dests'], lambda d: '{| d_path := %s; d_write := %s; d_content := %s |}' % (
+            path_lit(name_to_path(d[0], table)), blit(d[1]), strlit(d[2])))
+        return 'CApi %s %s %s %s %s %s' % (fs_lit(out['fs0'], table), fs_lit(out['before'], table), dests,
+                                           'FWrite' if inp['fin'][0] == 'write' else 'FClose',
+                                           fs_lit(out['after'], table), nlit(out['tmps_left']))
     ops = []
     for op in inp['ops']:
         if op[0] == 'close':
@@ -403,6 +513,8 @@ def emit(inp, out):
 def nontrivial(inp, out):
     if inp['kind'] == 'cli':
         return ('cli', tuple(inp['flags']), str(inp['specs']), inp['preseed'])
+    if inp['kind'] == 'api':
+        return ('api', inp['writer'], inp['preexisting'], inp['fin'][0])
     if not out['dests']:
         return None
     return ('h', sorted(inp['fs0'].items()), inp['ops'], inp['fin'])
@@ -411,6 +523,8 @@ def nontrivial(inp, out):
 def describe(inp, out):
     if inp['kind'] == 'cli':
         return {'kind': 'cli', 'cli_exit': out['exit'], 'cli_warning_records': sum(n for l, tc in out['counts'] for _, n in tc)}
+    if inp['kind'] == 'api':
+        return {'kind': 'api', 'api_writer': inp['writer'], 'api_dests': len(out['dests'])}
     return {'kind': 'hist', 'fin': inp['fin'][0], 'n_ops': len(inp['ops']), 'n_dests': len(out['dests']),
             'n_preexisting': len(inp['fs0']),
             'dest_preexists': sum(1 for d in out['dests'] if d[0] in inp['fs0']),
